@@ -142,7 +142,8 @@ pub struct Dialect {
     /// use distinct old/new prefixes (a/ vs b/) or the same (x/ vs x/)
     pub same_prefix: bool,
     /// other spellings of the same path: 1 = a doubled slash, 2 = an interior "/./", 3 = a leading "./"
-    /// (in place of the first component to strip, or in front of the name at -p0)
+    /// (in place of the first component to strip, or in front of the name at -p0), 4 = absolute (the root
+    /// directory in place of the first component to strip)
     pub spelling: u8,
     /// names whose only special character is the blank are written bare and followed by a TAB on the ---/+++
     /// lines (what git does, and GNU diff before it started quoting)
@@ -171,7 +172,7 @@ pub fn gen_dialect(ch: &mut Chooser, allow_git: bool) -> Dialect {
         bare_empty_ctx: ch.chance(1, 5),
         garbage: ch.chance(1, 3),
         same_prefix: ch.chance(1, 4),
-        spelling: if header != HeaderKind::Git && ch.chance(1, 6) { 1 + ch.below(3) as u8 } else { 0 },
+        spelling: if header != HeaderKind::Git && ch.chance(1, 5) { 1 + ch.below(4) as u8 } else { 0 },
         bare_spaces: ch.chance(1, 2),
     }
 }
@@ -210,6 +211,10 @@ pub fn render_name_opt(d: &Dialect, prefix: &str, path: &str, force_quote: bool,
         2 => full = full.replacen('/', "/./", 1),
         3 => {
             full = if d.strip == 0 { format!("./{}", full) } else { format!("./{}", &full[full.find('/').map_or(0, |i| i + 1)..]) };
+        }
+        // an absolute name: the root directory is the first component that -pN removes
+        4 if d.strip >= 1 => {
+            full = format!("/{}", &full[full.find('/').map_or(0, |i| i + 1)..]);
         }
         _ => {}
     }
